@@ -39,7 +39,7 @@ def make_tree(rng, root, nfiles):
     """returns dict rel path -> bytes (regular files)"""
     files = {}
     dirs = ['']
-    for d in rng.sample(['sub', 'a b', 'deep/er', 'q?d', 'h#d'], rng.randrange(0, 3)):
+    for d in rng.sample(['sub', 'a b', 'deep/er', 'q?d', 'h#d', '.well-known'], rng.randrange(0, 3)):
         dirs.append(d)
     for _ in range(nfiles):
         d = rng.choice(dirs)
@@ -55,6 +55,49 @@ def make_tree(rng, root, nfiles):
         with open(p, 'wb') as f:
             f.write(data)
     return files
+
+
+def stale(path, n):
+    """an output file left over from an earlier run (longer or shorter than what will be written)"""
+    with open(path, 'wb') as f:
+        f.write(b'\xaa' * n)
+
+
+def ib_cli_stage(ctx, rng, nruns=6):
+    """the integrity-block path of the real sign-bundle binary: output = block || untouched original bytes, whatever was at the
+    output path before; compared with the model (Model/IntegrityBlock.signFile). Also used by the C07 check."""
+    T = tempfile.mkdtemp(prefix='verif-ibcli-', dir=os.environ.get('TMPDIR', '/tmp'))
+    try:
+        bindir = os.path.join(T, 'bin'); os.makedirs(bindir)
+        rc, out, err = sh(['go', 'build', '-o', bindir + '/', './go/bundle/cmd/sign-bundle'], cwd=REPO, env=GOENV)
+        if rc != 0:
+            ctx.infra.append('building sign-bundle failed: ' + err.decode()[-300:]); return
+        r = ctx.go([f'setup.pem ed25519-pkcs8 {hexs(b"example.com")} {hexs(b"s3cret")}'])[0]
+        if not (r and r.startswith('ok ')):
+            ctx.infra.append('setup.pem failed'); return
+        _, kp, cp, pp, raw = r.split(' ')
+        keypem = os.path.join(T, 'k.pem'); open(keypem, 'wb').write(unhex(kp))
+        for i in range(nruns):
+            data = bytes([0x84, 0x48]) + rbytes(rng, [16, 300, 5000, 40][i % 4]) + (0).to_bytes(8, 'big')
+            data = data[:-8] + len(data).to_bytes(8, 'big')           # trailing length = file size: "no integrity block yet"
+            inp = os.path.join(T, f'in{i}.wbn'); open(inp, 'wb').write(data)
+            outp = os.path.join(T, f'out{i % 2}.swbn')               # output paths are reused: run i+2 finds run i's file there
+            pre = ['absent', 'longer', 'shorter', 'same-size'][i % 4] if i >= 2 else 'absent'
+            if pre == 'longer': stale(outp, len(data) + 4000)
+            elif pre == 'shorter': stale(outp, 7)
+            elif pre == 'same-size': stale(outp, len(data) + 150)
+            rc7, out7, err7 = sh([os.path.join(bindir, 'sign-bundle'), 'integrity-block', '-i', inp, '-o', outp, '-privateKey', keypem])
+            ctx.records.append((f'ibcli.exit run={i} output-before={pre}', 'exit %d' % rc7, 'exit 0'))
+            if rc7 != 0: continue
+            sdata = open(outp, 'rb').read()
+            blocklen = len(sdata) - len(data)
+            sig = sdata[blocklen - 64:blocklen] if blocklen > 64 else b''
+            dts = ctx.model([f'ib.dts {hashlib.sha512(data).hexdigest()} f09f968bf09f93a6:31620000:. {hexs(b"ed25519PublicKey")}={raw}'])[0]
+            vd = ctx.go([f'oracle.edverify {raw} {dts.split(" ")[1]} {hexs(sig)}'])[0] if dts and dts.startswith('ok ') else '0'
+            mo = ctx.model([f'ib.signfile {hexs(data)} {raw} {hexs(sig)} {vd}'])[0]
+            ctx.records.append((f'ibcli.output run={i} output-before={pre} in={len(data)}B', 'ok ' + hexs(sdata), mo))
+    finally:
+        shutil.rmtree(T, ignore_errors=True)
 
 
 def run(ctx):
@@ -106,7 +149,15 @@ def _run(ctx, rng, thorough, T):
         os.makedirs(root)
         files = make_tree(rng, root, rng.randrange(1, 8))
         outp = os.path.join(T, f'tree{ti}.wbn')
+        if ti % 3 == 1: stale(outp, 200000)
+        cwd = None
         cmd = [B('gen-bundle'), '-dir', root, '-baseURL', base.decode(), '-version', ver, '-o', outp]
+        if ti % 3 == 2:            # relative spellings of the directory, run from inside it / next to it
+            for extra in ('.htaccess', '.well-known/assetlinks.json'):
+                pth = os.path.join(root, extra); os.makedirs(os.path.dirname(pth), exist_ok=True)
+                open(pth, 'wb').write(('dotfile ' + extra).encode()); files[extra] = ('dotfile ' + extra).encode()
+            cwd = root
+            cmd[2] = ['.', './', '../' + os.path.basename(root) + '/.'][(ti // 3) % 3]
         op = f'c20.gen-bundle-dir tree={ti} ver={ver} files={sorted(files)}'
         # expected: one exchange per regular file (+ one per directory containing index.html)
         urlops = [f'path.url {hexs(base)} {hexs(rel.encode())}' for rel in sorted(files)]
@@ -125,7 +176,7 @@ def _run(ctx, rng, thorough, T):
         if ver == 'b1' or rng.random() < 0.5:
             prim = sorted(u for u, kind in expected.items() if kind != 'redirect')[0]
             cmd += ['-primaryURL', prim.decode()]
-        rc, out, err = sh(cmd)
+        rc, out, err = sh(cmd, cwd=cwd)
         if rc != 0:
             rec(ctx, op, 'gen-bundle-failed ' + err.decode()[-120:].replace('\n', ' '), 'ok')
             continue
@@ -154,6 +205,7 @@ def _run(ctx, rng, thorough, T):
             rc4, _, err4 = sh([B('dump-certurl'), '-i', chain])
             rec(ctx, 'c20.dump-certurl-accepts tree=%d' % ti, 'exit %d' % rc4, 'exit 0')
             signed = os.path.join(T, f'signed{ti}.wbn')
+            if ti % 2 == 0: stale(signed, 300000)
             rc5, _, err5 = sh([B('sign-bundle'), 'signatures-section', '-i', outp, '-o', signed, '-certificate', chain, '-privateKey', keypem,
                                '-validityUrl', 'https://example.com/validity', '-miRecordSize', str([16384, 16, 4096, 1][ti % 4])])
             rec(ctx, 'c20.sign-bundle-signatures tree=%d' % ti, 'exit %d %s' % (rc5, err5.decode()[-100:].strip() if rc5 else ''), 'exit 0 ')
@@ -191,6 +243,7 @@ def _run(ctx, rng, thorough, T):
                 rec(ctx, f'c20.dump-id-public tree={ti}', out9.decode(errors='replace').strip().split(': ')[-1], unhex(mid.split(' ')[1]).decode())
                 rc10, _, _ = sh([B('dump-bundle'), '-i', signed])
                 rec(ctx, f'c20.dump-bundle-refuses-integrity-block tree={ti}', 'exit %d' % (1 if rc10 else 0), 'exit 1')
+    ib_cli_stage(ctx, rng, 6 if not thorough else 24)
     # ---------------------------------------------------------------- D. HAR
     har = {'log': {'version': '1.2', 'creator': {'name': 'verif', 'version': '1'}, 'entries': []}}
     exp_urls = []
@@ -225,6 +278,37 @@ def _run(ctx, rng, thorough, T):
                     u, st, hs, body = e.split('~')
                     got.append((unhex(u).decode(), hashlib.sha256(unhex(body)).hexdigest()))
             rec(ctx, f'c20.har-exchanges {ver}', json.dumps(sorted(got)), json.dumps(sorted(exp_urls)))
+    # ---------------------------------------------------------------- D2. two signers, the first with a two-certificate chain
+    r2 = ctx.go([f'setup.pem ec-pkcs8-p256 {hexs(b"other.example")}'])[0]
+    if r2 and r2.startswith('ok '):
+        _, kp2, cp2, _, _ = r2.split(' ')
+        k1 = keys['ec-pkcs8-p256']
+        har2 = {'log': {'version': '1.2', 'creator': {'name': 'verif', 'version': '1'}, 'entries': []}}
+        for host in ('example.com', 'other.example'):
+            for i in range(2):
+                body = f'{host} body {i}'.encode()
+                har2['log']['entries'].append({'startedDateTime': '2020-01-01T00:00:00.000Z', 'time': 1, 'cache': {}, 'timings': {'send': 0, 'wait': 0, 'receive': 0},
+                    'request': {'method': 'GET', 'url': f'https://{host}/m/{i}', 'httpVersion': 'HTTP/1.1', 'cookies': [], 'headers': [], 'queryString': [], 'headersSize': -1, 'bodySize': -1},
+                    'response': {'status': 200, 'statusText': 'OK', 'httpVersion': 'HTTP/1.1', 'cookies': [], 'headers': [{'name': 'Content-Type', 'value': 'text/plain'}],
+                                 'content': {'size': len(body), 'mimeType': 'text/plain', 'text': body.decode()}, 'redirectURL': '', 'headersSize': -1, 'bodySize': len(body)}})
+        harp2 = wfile('two.har', json.dumps(har2).encode())
+        m0 = os.path.join(T, 'two.wbn')
+        rc, _, err = sh([B('gen-bundle'), '-har', harp2, '-version', 'b1', '-primaryURL', 'https://example.com/m/0', '-o', m0])
+        rec(ctx, 'c20.two-signers gen-bundle', 'exit %d %s' % (rc, err.decode()[-100:].strip() if rc else ''), 'exit 0 ')
+        ocsp2 = wfile('two-o.der', b'dummy-ocsp')
+        c1 = wfile('two-c1.pem', k1['cert'] + keys['ec-pkcs8-p384']['cert']); c2 = wfile('two-c2.pem', unhex(cp2))      # chain 1: leaf + an unrelated certificate in issuer position
+        key1, key2 = wfile('two-k1.pem', k1['key']), wfile('two-k2.pem', unhex(kp2))
+        ch = []
+        for cpem in (c1, c2):
+            rcc, outc, _ = sh([B('gen-certurl'), '-pem', cpem, '-ocsp', ocsp2]); ch.append(wfile(os.path.basename(cpem) + '.cbor', outc))
+        s1, s2 = os.path.join(T, 'two-s1.wbn'), os.path.join(T, 'two-s2.wbn')
+        rca, _, ea = sh([B('sign-bundle'), 'signatures-section', '-i', m0, '-o', s1, '-certificate', ch[0], '-privateKey', key1, '-validityUrl', 'https://example.com/validity'])
+        rcb, _, eb = sh([B('sign-bundle'), 'signatures-section', '-i', s1, '-o', s2, '-certificate', ch[1], '-privateKey', key2, '-validityUrl', 'https://other.example/validity'])
+        rec(ctx, 'c20.two-signers sign', 'exit %d %d %s' % (rca, rcb, (ea + eb).decode()[-120:].strip() if rca or rcb else ''), 'exit 0 0 ')
+        if rca == 0 and rcb == 0:
+            rcd, outd, _ = sh([B('dump-bundle'), '-i', s2])
+            rec(ctx, 'c20.two-signers dump-bundle-verifies', f'exit {rcd} section-error={outd.count(b"Signature verification error")} signed={outd.count(b"[Signed with certificate #")} errors={outd.count(b"verification error]")}',
+                'exit 0 section-error=0 signed=4 errors=0')
     # ---------------------------------------------------------------- E. gen-signedexchange -> dump-signedexchange -verify
     kk = keys['ec-sec1-p256']
     certpem, keypem = wfile('sxgc.pem', kk['cert']), wfile('sxgk.pem', kk['key'])
@@ -242,6 +326,7 @@ def _run(ctx, rng, thorough, T):
         content = wfile(f'content{i}.html', rbytes(rng, [5000, 100, 1, 0, 40000][i % 5]))
         outp = os.path.join(T, f'out{i}.sxg')
         rs = [16384, 16, 1, 4096][i % 4]
+        if i % 2 == 1: stale(outp, 100000)
         cmd = [B('gen-signedexchange'), '-version', ver, '-uri', 'https://example.com/page%d.html' % i, '-content', content, '-certificate', certpem, '-privateKey', keypem,
                '-certUrl', 'https://example.com/cert.cbor', '-validityUrl', 'https://example.com/validity', '-miRecordSize', str(rs), '-expire', rng.choice(['1h', '168h', '1m']), '-o', outp,
                '-responseHeader', 'X-Extra: v1', '-responseHeader', 'X-Extra: v2']
